@@ -128,4 +128,44 @@ pub fn run(seed: u64, n: usize, out: &mut Out, tier: &str) {
             out.case(&format!("omx\t{}\t{}", hex(&line), dumps.join("\t")), &imp, json!({"rule": line, "requests": reqs.len(), "applies_to": hits}), hits > 0 && hits < reqs.len());
         }
     }
+    // options under optimisation: two rules of one bucket that differ in at most their options must keep their own
+    // options when the optimiser looks at them together (an option is part of what makes two rules fusable)
+    let pool = ["", "match-case", "script", "image", "third-party", "~third-party", "important", "domain=a.com", "xhr,third-party", "match-case,script", "~image"];
+    for _ in 0..n {
+        let mut o1: String = r.pick(&pool).to_string();
+        let mut o2: String = r.pick(&pool).to_string();
+        if r.pct(50) {
+            // the two rules differ in exactly one option
+            let base = r.pick(&["", "script", "third-party", "image", "important"]).to_string();
+            let extra = *r.pick(&[&"match-case", &"match-case", &"~third-party", &"xhr", &"important", &"domain=a.com"]);
+            o1 = if base.is_empty() { extra.to_string() } else { format!("{},{}", extra, base) };
+            o2 = base;
+            if r.pct(50) {
+                std::mem::swap(&mut o1, &mut o2);
+            }
+        }
+        let (o1, o2) = (o1.as_str(), o2.as_str());
+        let mk = |body: &str, o: &str| if o.is_empty() { body.to_string() } else { format!("{}${}", body, o) };
+        let lines: Vec<String> = if r.pct(60) {
+            vec![mk("/paira[0-9]+/", o1), mk("/PAIRB[0-9]+/", o2), mk("/pairc[0-9]+/", o1)]
+        } else {
+            vec![mk("/pairzone/one", o1.trim_start_matches("match-case,").trim_start_matches("match-case")), mk("/pairzone/two", o2.trim_start_matches("match-case,").trim_start_matches("match-case")), "/pairzone/three".to_string()]
+        };
+        let lines: Vec<String> = lines.into_iter().map(|l| l.trim_end_matches('$').to_string()).collect();
+        let e_opt = adblock::Engine::from_rules_parametrised(&lines, Default::default(), true, true);
+        let e_un = adblock::Engine::from_rules_parametrised(&lines, Default::default(), true, false);
+        for u in ["https://a.com/paira1", "https://a.com/PAIRA1", "https://a.com/pairb2", "https://a.com/PAIRB2", "https://a.com/pairc3", "https://a.com/PairC3",
+                  "https://a.com/pairzone/one", "https://a.com/pairzone/two", "https://a.com/PAIRZONE/TWO", "https://a.com/pairzone/three"] {
+            for (src, ty) in [("https://a.com/", "script"), ("https://b.org/", "image"), ("https://b.org/", "script"), ("https://b.org/", "xhr")] {
+                if let Ok(q) = adblock::request::Request::new(u, src, ty) {
+                    let (a, b) = (e_opt.check_network_request(&q), e_un.check_network_request(&q));
+                    if a.matched != b.matched || a.important != b.important || a.exception.is_some() != b.exception.is_some() {
+                        out.fail("optimised-engine-applies-other-options", None, json!({"rules": lines, "url": u, "source": src, "type": ty, "optimised": a.matched, "not_optimised": b.matched}));
+                    }
+                    out.bump("optimised_pair_probes");
+                }
+            }
+        }
+    }
+
 }
